@@ -415,7 +415,7 @@ class ClosestFamily(SimpleFamily):
     fam = 'closest'
     mc_module = 'MC_Closest'
     trace_module = 'Trace_Closest'
-    props = ['C20', 'DRIFT']
+    props = ['C20', 'C15', 'DRIFT']
     domkeys = ['suggest', 'enum']
     rule = ('a scenario is (command names with hidden marks, given word or none); exhaustive part: all words and name pairs up to mc_bounds.maxl '
             'over mc_bounds.alpha, random part: dictionary and random names with 1-3 edits of a declared name; suggest/enum count the scenarios '
@@ -558,7 +558,7 @@ class SessionFamily:
                 continue
             viol += 1
             if viol <= 5:
-                path = ctx.save_replay('%s%d' % (src, i), line, trees[r['decl'] - 1])
+                path = ctx.save_replay('%s%d' % (src, i), line, trees[r['decl'] - 1] if trees and 'decl' in r else None)
                 print('VIOLATION property=%s replay=%s' % (prop, path), flush=True)
                 print('  ' + json.dumps(self.sample(line), ensure_ascii=False)[:600], flush=True)
         for name, (cnt, kf) in known_hits.items():
@@ -611,6 +611,19 @@ class SessionFamily:
 
 
 class DeterminismFamily(SessionFamily):
+    def replay(self, ctx, path):
+        # a C15 replay belongs to the family its record came from
+        fam = json.load(open(path))['record'].get('fam', 'session')
+        target = {'help': 'C16', 'completion': 'C18', 'argparse': 'C01', 'closest': 'C20', 'decl': 'C19'}.get(fam)
+        if target is None:
+            return SessionFamily.replay(self, ctx, path)
+        return PROPS[target].replay(ctx, path)
+
+    def classify(self, ctx, r, line, declsfile):
+        if 'calls' not in r:
+            return None
+        return SessionFamily.classify(self, ctx, r, line, declsfile)
+
     def sample(self, line):
         r = json.loads(line)
         if 'calls' in r:
@@ -682,6 +695,21 @@ class DeterminismFamily(SessionFamily):
             otrees = open(os.path.join(ctx.work, 'o_trees.ndjson')).read().splitlines()
             for i in obad['C15']:
                 bad_all.append((name, i, olines[i - 1], otrees, os.path.join(ctx.work, 'o_decls.ndjson')))
+            stats_all['rep_' + name] = on
+            rn += on
+            ctx.log('ran %d %s scenarios x %d: %d gave more than one observation' % (on, name, r2, len(obad['C15'])))
+        # setup errors of declarations (duplicate names ...) and command diagnoses (ties in distance ...): the same message every time
+        nn = 4000 if not th else 40000
+        for name, gen, trace, props in (
+                ('decl', ['gen-decl', '-seed', ctx.seed, '-n', nn, '-repeat', r2], 'Trace_Decl', ['C19', 'C15', 'DRIFT']),
+                ('closest', ['gen-closest', '-seed', ctx.seed, '-n', nn, '-repeat', r2], 'Trace_Closest', ['C20', 'C15', 'DRIFT'])):
+            ctx.vh(*(gen + ['-scen', 'o_scen.ndjson']))
+            ctx.vh('run', '-scen', 'o_scen.ndjson', '-out', 'o_rec.ndjson', '-workers', NCPU)
+            orec = os.path.join(ctx.work, 'o_rec.ndjson')
+            obad, ostats, on = ctx.validate('ov-' + name, trace, orec, os.devnull, props)
+            olines = open(orec).read().splitlines()
+            for i in obad['C15']:
+                bad_all.append((name, i, olines[i - 1], [], os.devnull))
             stats_all['rep_' + name] = on
             rn += on
             ctx.log('ran %d %s scenarios x %d: %d gave more than one observation' % (on, name, r2, len(obad['C15'])))
@@ -849,7 +877,7 @@ class DeclFamily(SimpleFamily):
     fam = 'decl'
     mc_module = 'MC_Tag'
     trace_module = 'Trace_Decl'
-    props = ['C19', 'DRIFT']
+    props = ['C19', 'C15', 'DRIFT']
     domkeys = ['ok', 'errtag', 'errdup', 'errshort', 'errbool']
     rule = ('a scenario is a declaration given as raw struct tag texts (option fields of several types, optionally a nested group with namespace, a command, a positional struct); '
             'exhaustive part: every string up to mc_bounds.maxlen over {a : " \\ blank LF e-acute} as a tag and every value body up to mc_bounds.maxbody as a Go string literal; '
